@@ -412,7 +412,9 @@ def stereo_alkenes():
                         if m is None:
                             continue
                         if not any(b.GetStereo() in (
-                                Chem.BondStereo.STEREOE, Chem.BondStereo.STEREOZ)
+                                Chem.BondStereo.STEREOE, Chem.BondStereo.STEREOZ,
+                                Chem.BondStereo.STEREOCIS,
+                                Chem.BondStereo.STEREOTRANS)
                                 for b in m.GetBonds()):
                             continue
                         c = Chem.MolToSmiles(m)
